@@ -77,13 +77,16 @@ def late_hs_histories(rng, n):
         f, g = rng.randrange(1, 200), rng.randrange(1, 200)
         prompt_hs = [[(0, 1, 0)]] * 8
         data = [[(0, 0, rng.randrange(1, 250))] for _ in range(8)]
-        shape = rng.randrange(3)
+        shape = rng.randrange(4)
         if shape == 0:      # explicit authentication that times out, pause, then exchanges
             ops = [(2, 1, rng.choice([1, 2, 3])), (5, pause, 0), (1, f, 3), (1, g, 3)]
             hs = [[(x, 1, 0)] for x in d] + prompt_hs
         elif shape == 1:    # authenticated, 12 h later the implicit re-authentication of a send is answered late
             ops = [(2, 1, 3), (5, H12 + 1000, 0), (1, f, 3), (5, pause, 0), (1, g, 3), (1, f, 3)]
             hs = [[(0, 1, 0)]] + [[(x, 1, 0)] for x in d] + prompt_hs
+        elif shape == 3:    # a FRESH connection (no session key yet): timed-out explicit authentication, pause, authenticate again
+            ops = [(2, 1, rng.choice([1, 2, 3])), (5, pause, 0), (2, 1, 3), (1, f, 3), (1, g, 3)]
+            hs = [[(x, 1, 0)] for x in d] + prompt_hs
         else:               # device-level calls
             ops = [(4, 1, 0), (5, H12 + 1000, 0), (3, f, 0), (5, pause, 0), (3, g, 0), (3, f, 0)]
             hs = [[(0, 1, 0)]] + [[(x, 1, 0)] for x in d] + prompt_hs
